@@ -93,6 +93,10 @@ impl<DataInterfaceType: DeduplicationDataInterface> FileDeduper<DataInterfaceTyp
         // This holds the results of the dedup queries.
         let mut deduped_blocks = vec![None; chunks.len()];
 
+        // Positions inside a run found by the queries below.  Such a position has no result of its own; if
+        // the processing loop further down gets there by another route it has to ask again.
+        let mut inside_queried_run = vec![false; chunks.len()];
+
         // Do at most two passes; 1) with global dedup querying possibly enabled, and 2) possibly rerunning
         // if the global dedup query came back with a new shard.
 
@@ -116,6 +120,9 @@ impl<DataInterfaceType: DeduplicationDataInterface> FileDeduper<DataInterfaceTyp
                     }
 
                     deduped_blocks[local_chunk_index] = Some((n_deduped, fse));
+                    for inside in inside_queried_run.iter_mut().skip(local_chunk_index + 1).take(n_deduped.saturating_sub(1)) {
+                        *inside = true;
+                    }
                     local_chunk_index += n_deduped;
 
                     // Now see if we can issue a background query against the global dedup server to see if
@@ -171,6 +178,13 @@ impl<DataInterfaceType: DeduplicationDataInterface> FileDeduper<DataInterfaceTyp
                 // In this case, do a second query against the local xorb to see if we're just repeating previous
                 // information in the xorb.
                 dedupe_query = self.dedup_query_against_local_data(&chunk_hashes[cur_idx..]);
+            }
+
+            if dedupe_query.is_none() && inside_queried_run[cur_idx] && cur_idx >= defrag_refused_end {
+                // A match against the pending data ended inside a run the shards know: the rest of that run
+                // is known data too, so look it up instead of storing it again.  (The chunks of a range
+                // refused by fragmentation prevention are new data on purpose.)
+                dedupe_query = self.data_mng.chunk_hash_dedup_query(&chunk_hashes[cur_idx..]).await?;
             }
 
             if let Some((n_deduped, fse)) = dedupe_query {
